@@ -124,6 +124,10 @@ func MonC01(r *Run, o *Obs) []Finding {
 		case OpGet:
 			if p, cls := m.expectedGet(op.Type, op.Key); cls == "ok" && p.Reg >= 0 && len(res.Insts) == 1 && res.Insts[0] != nil {
 				check(p, res.Insts[0].ID, fmt.Sprintf("op%d %s", res.Op, op.String()))
+			} else if cls == "ok" && p.Reg >= 0 && res.IsNil && m.Regs[p.Reg].Life == godi.Singleton && m.Regs[p.Reg].Meta != nil {
+				// "exactly its outputs are what is resolved": every service of the pool is a
+				// pointer to a struct the recorder knows; anything else is not an output
+				fs = append(fs, Finding{"identity", m.Features(p.Reg), fmt.Sprintf("singleton %s (output %d): op%d %s succeeded with a value that is none of the constructor's outputs (nil, or not a service instance at all)", m.Describe(p.Reg), p.Out, res.Op, op.String())})
 			}
 		case OpGetGroup:
 			members := m.Groups[GroupKey{op.Type, op.Group}]
